@@ -309,3 +309,382 @@ def replay(prop, path, rep):
         compare_lines(rep, mode, [inp], "replay")
     else:
         print("replay file names an obligation, not an input:\n" + text)
+
+
+# --------------------------------------------------------------------------------------------------
+# engine L: lockstep replay of model-chosen schedules
+# --------------------------------------------------------------------------------------------------
+def run_lock(rep, scens, family, probe_pct=25, max_steps=600, salt=0, judge=None, monitor=None):
+    """scens: scenario texts. The driver picks a schedule per scenario (seeded), the harness
+    replays it on the real threads; transcripts must be identical. Returns mismatch count."""
+    seed = (rep.seed * 7919 + salt) % (2 ** 30)
+    shards = vlib.chunks(scens, vlib.CORES)
+
+    def one(part):
+        text = "\n---\n".join(part) + "\n---\n"
+        drc, dout, derr = vlib.run_tool([vlib.DRIVER, "lock", str(seed), str(probe_pct), str(max_steps)],
+                                        text, 600)
+        mblocks = split_blocks(dout)
+        if drc != 0 or len(mblocks) != len(part):
+            return part, None, None, "driver rc=%s blocks=%d/%d %s" % (drc, len(mblocks), len(part), derr[-1500:])
+        hblocks = []
+        todo = list(zip(part, mblocks))
+        guard = 0
+        while todo and guard < len(part) + 2:
+            guard += 1
+            inp = "".join(sc + "\n" + "".join("@ " + ln + "\n" for ln in mb if ln[:2] in ("S ", "F ", "P "))
+                          + "---\n" for sc, mb in todo)
+            hrc, hout, herr = vlib.run_tool([vlib.HARNESS, "lock"], inp, 900)
+            hb = split_blocks(hout)
+            done = 0
+            for b in hb:
+                if b and b[0].startswith("BATCH-ABORTED"):
+                    break
+                hblocks.append(b)
+                done += 1
+            if hrc not in (0, 3) or done == 0:
+                return part, mblocks, hblocks, "harness rc=%s after %d blocks: %s" % (hrc, len(hblocks), herr[-1500:])
+            todo = todo[done:]
+        return part, mblocks, hblocks, None
+
+    mism = 0
+    from concurrent.futures import ThreadPoolExecutor
+    with ThreadPoolExecutor(max_workers=len(shards) or 1) as ex:
+        results = list(ex.map(one, shards))
+    for part, mblocks, hblocks, err in results:
+        if err:
+            rep.violation("family %s could not run: %s" % (family, err),
+                          "obligation: correspondence family %s (engine L) could not run\n%s\n" % (family, err),
+                          no_input=True)
+            mism += 1
+            continue
+        for sc, m_all, h_all in zip(part, mblocks, hblocks):
+            # L/I lines: the global histories, for the monitors only
+            m = [ln for ln in m_all if not ln.startswith(("L ", "I "))]
+            h = [ln for ln in h_all if not ln.startswith(("L ", "I "))]
+            rep.coverage["evaluations"] += 1
+            rep.coverage["traces_validated_against_impl"] += 1
+            steps = [ln for ln in m if ln[:2] in ("S ", "F ", "P ")]
+            probes = sum(1 for ln in m if ln.startswith("P "))
+            rep.coverage["lock_steps"] = rep.coverage.get("lock_steps", 0) + len(steps)
+            rep.coverage["probes"] = rep.coverage.get("probes", 0) + probes
+            rep.distinct.add((family, hash(tuple(m))))
+            if len(rep.coverage["samples"]) < 5 and rep.coverage["evaluations"] % 41 == 1:
+                rep.coverage["samples"].append({"family": family, "scenario": sc.split("\n"),
+                                                "schedule_head": m[:10], "steps": len(steps)})
+            if judge:
+                judge(sc, m_all, h_all)
+            sched_txt = " ".join("%s:%s" % (ln.split()[0], ln.split()[1]) for ln in m if ln[:2] in ("S ", "F ", "P "))
+            slow = any(("SLOWSTOP" in ln) for ln in h_all)
+            # the property's monitor on the observed (and on the model's) history
+            bad_h, known_h, bad_m = [], [], []
+            if monitor and not slow:
+                bad_h, known_h = run_monitor(monitor, h_all, sc)
+                bad_m, _ = run_monitor(monitor, m_all, sc)
+                for kf in known_h:
+                    rep.known_hits[kf.split(" (")[0]] = rep.known_hits.get(kf.split(" (")[0], 0) + 1
+                if bad_h:
+                    rep.coverage["monitor_rejections"] = rep.coverage.get("monitor_rejections", 0) + 1
+                    if len(rep.violations) < 3:
+                        rep.violation(
+                            "family %s: the observed execution violates %s: %s%s" %
+                            (family, rep.prop, "; ".join("%s: %s" % b for b in bad_h[:3]),
+                             " (the model produces the same history)" if bad_m and m == h else ""),
+                            "family: %s\nmode: lock\nclauses: %s\n--- scenario\n%s\nschedule %s\n--- model\n%s\n--- impl\n%s\n" %
+                            (family, bad_h[:5], sc, sched_txt, "\n".join(m_all), "\n".join(h_all)))
+                    mism += 1
+                    continue
+            if m != h:
+                if slow:
+                    rep.coverage["inconclusive"] = rep.coverage.get("inconclusive", 0) + 1
+                    continue
+                mism += 1
+                if len(rep.violations) < 3:
+                    first = next((i for i, (a, b) in enumerate(zip(m, h)) if a != b), min(len(m), len(h)))
+                    rep.violation(
+                        "family %s (engine L): the implementation left the model's schedule at step %d: "
+                        "model `%s` impl `%s`; no clause of %s is violated by the observed execution" %
+                        (family, first, m[first] if first < len(m) else "<end>",
+                         h[first] if first < len(h) else "<end>", rep.prop),
+                        "obligation: correspondence (engine L, family %s): the code no longer behaves like "
+                        "the model the theorems of coq/Props/%s.v are about\nfamily: %s\nmode: lock\n"
+                        "--- scenario\n%s\nschedule %s\n--- model\n%s\n--- impl\n%s\n" %
+                        (family, rep.prop, family, sc, sched_txt, "\n".join(m), "\n".join(h)),
+                        no_input=True)
+    rep.coverage["disagreements_checked"] += mism
+    return mism
+
+
+def run_monitor(monitor, lines, sc):
+    import monitors
+    try:
+        r = monitor(monitors.Hist(lines, sc))
+    except Exception as e:   # a monitor crash must never look like a violation
+        return [], ["monitor-error %r" % (e,)]
+    if isinstance(r, tuple):
+        return r[0], r[1]
+    return r, []
+
+
+class Gen:
+    """random scenario generator; every choice comes from self.rng"""
+
+    def __init__(self, rng, **kw):
+        self.rng = rng
+        self.k = dict(policies=["block"], caps=[1, 2, 3], max_threads=3, max_ops=4, reducers=(1, 2),
+                      mws=(0, 1), directs=(0, 2), selectors=(0, 0), chans=(0, 0), effects=0.0,
+                      ops={"d": 10, "gs": 2}, stop=0.9, entry="ITD", keep=0.2, verdict=0.15,
+                      chan_pols=["block"], late_stop=True)
+        self.k.update(kw)
+
+    def pick(self, weights):
+        items = list(weights.items())
+        tot = sum(w for _, w in items)
+        x = self.rng.random() * tot
+        for k, w in items:
+            x -= w
+            if x <= 0:
+                return k
+        return items[-1][0]
+
+    def scenario(self):
+        r, k = self.rng, self.k
+        lines = ["cap %d" % r.choice(k["caps"]), "pol %s" % r.choice(k["policies"])]
+        nred = r.randint(*k["reducers"])
+        nmw = r.randint(*k["mws"])
+        for j in range(nred):
+            lines.append("reducer %d %s" % (j, "K" if r.random() < k["keep"] / 2 else "D"))
+        for i in range(nmw):
+            lines.append("mw %d" % i)
+        lines.append("init reducers " + (",".join(str(j) for j in range(nred)) or "-"))
+        lines.append("init mws " + (",".join(str(i) for i in range(nmw)) or "-"))
+        self.next_sid = 1
+        self.next_eff = 1000
+        self.next_extra_action = 5000
+        for _ in range(r.randint(*k["directs"])):
+            lines.append("sub %d direct" % self.next_sid)
+            self.next_sid += 1
+        for _ in range(r.randint(*k["selectors"])):
+            lines.append("sub %d selector %d" % (self.next_sid, self.next_sid))
+            self.next_sid += 1
+        for _ in range(r.randint(*k["chans"])):
+            lines.append("sub %d chan %d %s" % (self.next_sid, r.choice([1, 2, 3]), r.choice(k["chan_pols"])))
+            self.next_sid += 1
+        self.n_init_subs = self.next_sid - 1
+        nthreads = r.randint(1, k["max_threads"])
+        actions = []
+        progs = []
+        stopper = r.randrange(nthreads) if r.random() < k["stop"] else -1
+        self.drains = {}   # thread -> iterators it must consume to the end (well-formed use)
+        for t in range(nthreads):
+            ops = []
+            own = []
+            for n in range(r.randint(1, k["max_ops"])):
+                kind = self.pick(k["ops"])
+                if kind == "d":
+                    a = t * 100 + len(actions) + 1
+                    actions.append(a)
+                    ops.append("d.%s.%d" % (r.choice(k["entry"]), a))
+                elif kind in ("gs", "gm", "close"):
+                    ops.append(kind)
+                elif kind == "as":
+                    ops.append("as:%d" % self.next_sid)
+                    own.append(self.next_sid)
+                    self.next_sid += 1
+                elif kind == "ss":
+                    ops.append("ss:%d:%d" % (self.next_sid, self.next_sid))
+                    own.append(self.next_sid)
+                    self.next_sid += 1
+                elif kind == "sc":
+                    ops.append("sc:%d:%d:%s" % (self.next_sid, r.choice([1, 2]), r.choice(k["chan_pols"])))
+                    own.append(self.next_sid)
+                    self.next_sid += 1
+                elif kind == "un":
+                    # only handles this thread can hold: its own and the initial ones
+                    cands = own + list(range(1, self.n_init_subs + 1))
+                    if cands:
+                        ops.append("un:%d" % r.choice(cands))
+                elif kind == "ar":
+                    lines.append("reducer %d D" % nred)
+                    ops.append("ar:%d" % nred)
+                    nred += 1
+                elif kind == "am":
+                    lines.append("mw %d" % nmw)
+                    ops.append("am:%d" % nmw)
+                    nmw += 1
+                elif kind == "th" or kind == "tk":
+                    body = []
+                    for _ in range(r.randint(0, 2)):
+                        if kind == "th" or r.random() < 0.5:
+                            a = self.next_extra_action
+                            self.next_extra_action += 1
+                            actions.append(a)
+                            body.append("d.%s.%d" % (r.choice("ITD") if kind == "tk" else r.choice("DDI"), a))
+                    if r.random() < 0.15:
+                        body.append("panic")
+                    ops.append("%s:%d:%s" % (kind, self.next_eff, ",".join(body) or "-"))
+                    self.next_eff += 1
+                elif kind == "it":
+                    # well-formed use: the iterator's own thread consumes it to the end right away
+                    sid = self.next_sid
+                    self.next_sid += 1
+                    ops.append("it:%d" % sid)
+                    for _ in range(r.randint(0, 2)):
+                        ops.append("nx:%d" % sid)
+                    self.drains.setdefault(t, []).append(sid)
+                    break
+            if t == stopper and t not in self.drains:
+                ops.append("drop" if k.get("only_drop") else r.choice(["stop", "stop", "drop"]))
+                if r.random() < 0.3:
+                    ops.append(r.choice(["stop", "d.I.%d" % (t * 100 + 99), "gs"]))
+            progs.append(ops)
+        if self.drains:
+            # every iterator is consumed to the end by its own thread; a separate thread stops
+            for t, sids in self.drains.items():
+                for sid in sids:
+                    progs[t].append("dr:%d" % sid)
+            if stopper < 0 or stopper in self.drains:
+                progs.append(["drop" if k.get("only_drop") else r.choice(["stop", "drop"])])
+        # scripted answers / verdicts / selector values for the actions
+        for a in actions:
+            for j in range(nred):
+                x = r.random()
+                eff = ""
+                if r.random() < k["effects"] and self.next_eff < 1012:
+                    kind = r.choice(["task", "func", "thunk", "action"])
+                    if kind == "action":
+                        b = self.next_extra_action
+                        self.next_extra_action += 1
+                        eff = " e %d action %d" % (self.next_eff, b)
+                    else:
+                        body = []
+                        if kind == "thunk" and r.random() < 0.5:
+                            b = self.next_extra_action
+                            self.next_extra_action += 1
+                            body.append("d.D.%d" % b)
+                        if r.random() < 0.15:
+                            body.append("panic")
+                        eff = " e %d %s %s" % (self.next_eff, kind, ",".join(body) or "-")
+                    self.next_eff += 1
+                if x < k["keep"] or eff:
+                    lines.append("r %d %d %s%s" % (j, a, "K" if x < k["keep"] else "D", eff))
+            for i in range(nmw):
+                for h in "red":
+                    if r.random() < k["verdict"]:
+                        lines.append("v %d %s %d %s" % (i, h, a, r.choice("DBE")))
+            for s in range(1, self.next_sid):
+                lines.append("sel %d %d %d" % (s, a, r.randint(0, 2)))
+        for t, ops in enumerate(progs):
+            lines.append("t %d %s" % (t, " ".join(ops)))
+        return "\n".join(lines)
+
+
+# --------------------------------------------------------------------------------------------------
+# properties decided through engine L (+ monitors)
+# --------------------------------------------------------------------------------------------------
+ALLPOL = ["block", "oldest", "latest"]
+FAMILIES = {
+    # name: (knobs, probe_pct)
+    "mp_dispatch": (dict(policies=["block"], caps=[1, 2, 3], directs=(0, 2), reducers=(1, 3), keep=0.3,
+                         ops={"d": 12, "gs": 3, "as": 1}, max_ops=5, mws=(0, 1), max_threads=4), 25),
+    "mp_policies": (dict(policies=ALLPOL, caps=[1, 2, 3], directs=(0, 2), reducers=(0, 2),
+                         ops={"d": 12, "gs": 2, "gm": 1, "th": 1}, max_ops=6, mws=(0, 1), max_threads=4), 25),
+    "drop_burst": (dict(policies=["oldest", "latest"], caps=[1, 2, 3], directs=(0, 1), reducers=(1, 2),
+                        ops={"d": 14, "gm": 1}, entry="DDIT", max_ops=7, mws=(0, 0), max_threads=3), 15),
+    "stop_race": (dict(policies=ALLPOL, caps=[1, 2], directs=(0, 2), chans=(0, 1), chan_pols=["block"],
+                       ops={"d": 10, "gs": 2, "close": 2, "stop": 0}, max_ops=4, max_threads=4, stop=1.0), 35),
+    "readers": (dict(policies=["block"], caps=[1, 2], directs=(1, 2), reducers=(1, 2), keep=0.3,
+                     ops={"d": 8, "gs": 8}, max_ops=6, mws=(0, 1), max_threads=4), 15),
+    "subs_lifecycle": (dict(policies=["block"], directs=(0, 2), selectors=(0, 1), chans=(0, 1),
+                            chan_pols=["block", "oldest"],
+                            ops={"d": 10, "as": 3, "ss": 1, "sc": 1, "un": 5, "gs": 1}, max_ops=5,
+                            mws=(0, 1)), 25),
+    "channeled": (dict(policies=["block"], directs=(1, 1), chans=(1, 2), chan_pols=ALLPOL, keep=0.15,
+                       ops={"d": 12, "sc": 2, "un": 3, "gs": 1}, max_ops=6), 30),
+    "effects": (dict(policies=["block", "oldest"], effects=0.35, reducers=(1, 3),
+                     ops={"d": 10, "th": 2, "tk": 2, "gs": 1}, max_ops=4, mws=(0, 1)), 25),
+    "registration": (dict(policies=["block"], ops={"d": 10, "ar": 2, "am": 2, "as": 2}, max_ops=5,
+                          mws=(0, 2), directs=(0, 1), verdict=0.2), 20),
+    "iterators": (dict(policies=["block"], ops={"d": 10, "it": 3, "gs": 1}, max_ops=4, directs=(0, 1),
+                       keep=0.2), 25),
+    "selectors": (dict(policies=["block"], directs=(0, 1), selectors=(1, 2), keep=0.2,
+                       ops={"d": 12, "ss": 1, "un": 1}, max_ops=6), 10),
+    "api_mix": (dict(policies=ALLPOL, directs=(0, 1), selectors=(0, 1), chans=(0, 1), chan_pols=ALLPOL,
+                     effects=0.15,
+                     ops={"d": 10, "gs": 1, "gm": 1, "as": 2, "ss": 1, "sc": 1, "un": 3, "it": 1, "th": 1,
+                          "tk": 1, "close": 1, "ar": 1, "am": 1}, max_ops=4, max_threads=4, mws=(0, 1)), 30),
+    "droppable": (dict(policies=ALLPOL, caps=[1, 2], directs=(0, 2), chans=(0, 1), chan_pols=["block"],
+                       ops={"d": 10, "gs": 2}, max_ops=4, max_threads=4, stop=1.0, only_drop=True), 30),
+    "metrics": (dict(policies=ALLPOL, directs=(0, 2), reducers=(0, 2), effects=0.2, verdict=0.3,
+                     ops={"d": 12, "gm": 3, "close": 1}, max_ops=5, mws=(0, 2), max_threads=3), 15),
+}
+
+PROPERTY_FAMILIES = {
+    "C01": [("mp_dispatch", 160, 2400), ("registration", 60, 800)],
+    "C02": [("mp_policies", 200, 3000), ("effects", 60, 800)],
+    "C03": [("mp_dispatch", 160, 2400), ("subs_lifecycle", 60, 800)],
+    "C04": [("stop_race", 200, 3000), ("channeled", 60, 800)],
+    "C05": [("mp_dispatch", 200, 3000)],
+    "C06": [("drop_burst", 200, 3000), ("mp_policies", 80, 1000)],
+    "C07": [("registration", 160, 2400), ("mp_dispatch", 60, 800)],
+    "C08": [("readers", 200, 3000)],
+    "C09": [("subs_lifecycle", 220, 3000)],
+    "C10": [("channeled", 220, 3000)],
+    "C11": [("effects", 220, 3000)],
+    "C13": [("api_mix", 220, 3000), ("iterators", 40, 600)],
+    "C14": [("iterators", 160, 2000)],
+    "C15": [("droppable", 200, 3000)],
+    "C18": [("metrics", 200, 3000)],
+}
+
+
+def known_findings(prop):
+    import json
+    path = os.path.join(vlib.ROOT, "known_findings.json")
+    return [f for f in json.load(open(path))["findings"] if f["property"] == prop]
+
+
+def corpus_scenarios(prop):
+    """minimised failing scenarios and known-finding witnesses, replayed first"""
+    d = os.path.join(vlib.ROOT, "corpus")
+    out = []
+    for f in sorted(os.listdir(d)) if os.path.isdir(d) else []:
+        if f.startswith(prop + "_") and f.endswith(".txt"):
+            out.append((f, open(os.path.join(d, f)).read().strip()))
+    return out
+
+
+def lock_property(rep):
+    import monitors
+    prop = rep.prop
+    mon = monitors.MONITORS.get(prop)
+    rules = []
+    # corpus / witnesses first
+    for name, sc in corpus_scenarios(prop):
+        run_lock(rep, [sc], "corpus/" + name, monitor=mon)
+    for k, (fam, nq, nt) in enumerate(PROPERTY_FAMILIES[prop]):
+        knobs, probe = FAMILIES[fam]
+        n = nt if rep.tier == "thorough" else nq
+        g = Gen(rng_for(rep, fam), **knobs)
+        scens = [g.scenario() for _ in range(n)]
+        rep.coverage["programs"] += n
+        run_lock(rep, scens, fam, probe_pct=probe, salt=k, monitor=mon)
+        rules.append("%s x%d" % (fam, n))
+    rep.coverage["rule"] = (
+        "engine L: random scenarios of the families [%s] (seeded by VERIF_SEED); for each the extracted "
+        "Coq model chooses a schedule (random enabled thread, occasional probe of a thread the model "
+        "says is blocked), the harness replays it on the real threads behind the verif::point hooks; "
+        "compared per step: the park label reached, the API-level events of the stepping thread, new "
+        "threads, probe outcome; at the end: state, count metrics, unfinished threads. The monitor of "
+        "%s also judges every observed history. distinct = distinct model transcripts"
+        % (", ".join(rules), prop))
+    # known findings: listed, witnessed, never added to at run time
+    for f in known_findings(prop):
+        if f["status"] != "known":
+            continue
+        hits = sum(v for k, v in rep.known_hits.items() if k.startswith(f["match"]))
+        rep.known_finding("%s [%s; %d histories of this class observed in this run]" % (f["what"], f["id"], hits))
+
+
+for _p in PROPERTY_FAMILIES:
+    CHECKS[_p] = lock_property
